@@ -99,7 +99,9 @@ func (c *Ctx) Decide(ok bool, rule string, fn interface{}, construct, pos, detai
 	}
 }
 
-func (c *Ctx) Note(format string, a ...interface{}) { c.Notes = append(c.Notes, fmt.Sprintf(format, a...)) }
+func (c *Ctx) Note(format string, a ...interface{}) {
+	c.Notes = append(c.Notes, fmt.Sprintf(format, a...))
+}
 func (c *Ctx) Assumef(format string, a ...interface{}) {
 	c.Assume = append(c.Assume, fmt.Sprintf(format, a...))
 }
@@ -284,24 +286,24 @@ func writeEvidence(ch *Check, c *Ctx, res *Result, tier string, seed int, verifD
 	}
 	sort.Strings(fnames)
 	cov := map[string]interface{}{
-		"explanation":        ch.Explain,
-		"rule":               "obligations are rule instances (rule|function|construct) enumerated from /repo's type-checked SSA on this run; non-trivial = each instance is a distinct construct in the source",
-		"obligations":        len(c.Obls),
-		"discharged":         holds,
-		"violations_known":   len(res.Known),
-		"violations_new":     len(res.Violations),
-		"undecided":          und,
-		"evaluations":        len(c.Obls),
+		"explanation":         ch.Explain,
+		"rule":                "obligations are rule instances (rule|function|construct) enumerated from /repo's type-checked SSA on this run; non-trivial = each instance is a distinct construct in the source",
+		"obligations":         len(c.Obls),
+		"discharged":          holds,
+		"violations_known":    len(res.Known),
+		"violations_new":      len(res.Violations),
+		"undecided":           und,
+		"evaluations":         len(c.Obls),
 		"distinct_nontrivial": distinctKeys(c.Obls),
-		"rule_instances":     rules,
-		"functions_analysed": len(c.Funcs),
-		"functions":          fnames,
-		"packages_loaded":    len(c.P.Order),
-		"module_packages":    len(c.P.Mod),
-		"floors":             fl,
-		"samples":            samples,
-		"notes":              c.Notes,
-		"exhaustive":         true,
+		"rule_instances":      rules,
+		"functions_analysed":  len(c.Funcs),
+		"functions":           fnames,
+		"packages_loaded":     len(c.P.Order),
+		"module_packages":     len(c.P.Mod),
+		"floors":              fl,
+		"samples":             samples,
+		"notes":               c.Notes,
+		"exhaustive":          true,
 	}
 	if ch.Level == "proof" {
 		cov["checker_cmd"] = "/verif/run.sh " + ch.ID + " " + tier
